@@ -120,7 +120,7 @@ def _roundtrip(libcls, obj, key, legacy):
         return rd[key]
 
 
-DEF = dict(name="nm", charge=-2, mult=3, iso=13, label="L", atype=2, stereo=10, geom=41, fc=-1, fs=1, aint=7, mint=9, psel=0,
+DEF = dict(prof=0, name="nm", charge=-2, mult=3, iso=13, label="L", atype=2, stereo=10, geom=41, fc=-1, fs=1, aint=7, mint=9, psel=0,
            blabel="bl", btype=2, bstereo=11, fsel=1, bint=5)
 
 
@@ -142,9 +142,19 @@ def _ens_rt(cell, legacy, **kw):
     f = dict(DEF, **kw)
     nc, na, nb = ECELLS[cell]
     atoms = _atoms(1, na, f["iso"], f["label"], f["atype"], f["stereo"], f["geom"], f["fc"], f["fs"], f["aint"])
-    coords = np.array([COORDS[:na] * (c + 1) + c for c in range(nc)]).reshape((nc, na, 3))
-    charges = np.array([CHARGES[:na] - 0.5 * c for c in range(nc)]).reshape((nc, na))
-    weights = np.array([0.75, 0.1][:nc])
+    # array profiles: 0 = clearly different conformers, 1 = conformers differing by a few float32 ulps, 2 = identical conformers
+    if f["prof"] == 0:
+        coords = np.array([COORDS[:na] * (c + 1) + c for c in range(nc)]).reshape((nc, na, 3))
+        charges = np.array([CHARGES[:na] - 0.5 * c for c in range(nc)]).reshape((nc, na))
+        weights = np.array([0.75, 0.1][:nc])
+    elif f["prof"] == 1:
+        coords = np.array([COORDS[:na] * (1 + 4e-7 * c) for c in range(nc)]).reshape((nc, na, 3))
+        charges = np.array([CHARGES[:na] * (1 + 4e-7 * c) for c in range(nc)]).reshape((nc, na))
+        weights = np.array([0.5, 0.5 * (1 + 4e-7)][:nc])
+    else:
+        coords = np.array([COORDS[:na] for c in range(nc)]).reshape((nc, na, 3))
+        charges = np.array([CHARGES[:na] for c in range(nc)]).reshape((nc, na))
+        weights = np.array([0.5, 0.5][:nc])
     e = ConformerEnsemble(atoms if na else None, n_conformers=nc, name=f["name"], charge=f["charge"], mult=f["mult"], coords=coords, weights=weights,
                           atomic_charges=charges, attrib={"val": f["mint"], "s": "txt"})
     _bonds(e, nb, f["psel"], f["blabel"], f["btype"], f["bstereo"], f["fsel"], f["bint"])
@@ -168,14 +178,14 @@ def _ncells(kind):
 # Quick tier: three obligations per cell, each with one *group* of fields symbolic and the others concrete (sum instead of product of
 # the branchings on None-ness / string length).  Thorough tier adds the full product.  SPLIT = kind * 100 + cell.
 
-def h_top_fields(kind: int, cell: int, legacy: bool, name: str, charge: int, mult: int, mint: int) -> bool:
+def h_top_fields(kind: int, cell: int, legacy: bool, prof: int, name: str, charge: int, mult: int, mint: int) -> bool:
     """
     object-level fields symbolic (name, charge, multiplicity, attribute value)
     pre: 0 <= kind <= 1 and 0 <= cell < _ncells(kind) and (SPLIT < 0 or kind * 100 + cell == SPLIT)
-    pre: len(name) <= 2 and -9 <= charge <= 9 and 1 <= mult <= 9 and -1000 <= mint <= 1000
+    pre: len(name) <= 2 and -9 <= charge <= 9 and 1 <= mult <= 9 and -1000 <= mint <= 1000 and 0 <= prof <= 2
     post: _
     """
-    return _rt(kind, cell, legacy, name=name, charge=charge, mult=mult, mint=mint)
+    return _rt(kind, cell, legacy, prof=prof, name=name, charge=charge, mult=mult, mint=mint)
 
 
 def h_atom_fields(kind: int, cell: int, legacy: bool, iso: Optional[int], label: Optional[str], atype: int, stereo: int, geom: int, fc: int, fs: int, aint: int) -> bool:
@@ -228,7 +238,7 @@ def run(rep, tier):
     rep.encoded = ENCODED
     rep.models_validated = envmodels.validate_storage_models() + envmodels.validate_handle_codec()
     rep.bounds = {"symbolic": "name (str<=2), charge [-9,9], mult [1,9], atom 0: isotope Optional[int], label Optional[str<=2], atype/stereo/geom ints (incl. non-members), formal charge/spin, nested attrib int; bond 0: label, btype, stereo, attrib int, endpoint pair selector, f_order menu {0,.5,1,1.5}; molecule attrib int",
-                  "concrete loops": "element of atom 0 in {Unknown, H, C, Og}; n_atoms 0..3; n_bonds 0..2; n_conformers 0..2; arrays with a NaN, a negative and float32-inexact values",
+                  "array profiles": "conformers clearly different / differing by ~3 float32 ulps / identical (selector)", "concrete loops": "element of atom 0 in {Unknown, H, C, Og}; n_atoms 0..3; n_bonds 0..2; n_conformers 0..2; arrays with a NaN, a negative and float32-inexact values",
                   "encodings": "v2 and legacy v1 (file magic ML10Library), compared on the v1 schema only"}
     rep.outside = ["the msgpack C encoder/decoder itself (HandleCodec model; validated against msgpack each run; replays use real msgpack)",
                    "numpy astype/tobytes/frombuffer on symbolic data (arrays are concrete)", "sizes beyond the bound", "multiplicity 0 (documented multiplicity >= 1)",
